@@ -18,7 +18,7 @@ RULE = (
 )
 ASSUMPTIONS = ["shooting growth bounded by exp(13.8) by construction", "levels ascending (ordering is C10's subject)"]
 TOLERANCES = {"linearity": "(1e-12 + 4096*eps*G) * (|a| max|S1| + |b| max|S2| + max|S12|)", "footprint independence": "bit-identical"}
-BUDGET = {"quick": dict(examples=400, shards=1), "thorough": dict(examples=2500, shards=16)}
+BUDGET = {"quick": dict(examples=1000, shards=1), "thorough": dict(examples=10000, shards=16)}
 
 
 def warmup():
